@@ -251,7 +251,7 @@ func (m *monitor) finishCycle() {
 	var eff ref.Effect
 	var model *ref.World
 	if c.Pre != nil {
-		model = c.Pre
+		model = c.Pre.Clone() // Pre stays pristine for judges
 	} else {
 		model = m.live().Clone() // effects only (constants); fact writes land on a throw-away copy
 	}
@@ -429,6 +429,9 @@ func RunOn(prog *Program, kb *ast.KnowledgeBase, w *ref.World, opts RunOpts, tr 
 	for _, f := range w.Objs {
 		f := f
 		f.H().OnProbe = func(kind string, id int64, n int) { m.event(fmt.Sprintf("%s:%d", kind, id)) }
+	}
+	if pc, ok := opts.Ctx.(*PollCtx); ok {
+		pc.OnFlip = func() { m.event("FLIP") }
 	}
 	ctx := opts.Ctx
 	if ctx == nil {
